@@ -185,6 +185,13 @@ pub fn verify_der(sec1: &[u8], msg: &[u8], der: &[u8]) -> bool {
     vk.verify(msg, &sig).is_ok()
 }
 
+/// fixed-size r || s signature
+pub fn verify_raw(sec1: &[u8], msg: &[u8], raw: &[u8]) -> bool {
+    let Ok(vk) = VerifyingKey::from_sec1_bytes(sec1) else { return false };
+    let Ok(sig) = Signature::from_slice(raw) else { return false };
+    vk.verify(msg, &sig).is_ok()
+}
+
 /// The SEC1 point inside a DER SubjectPublicKeyInfo for id-ecPublicKey / prime256v1 (fixed 26-byte prefix).
 pub fn sec1_from_spki(der: &[u8]) -> Option<Vec<u8>> {
     const PREFIX: [u8; 26] = [
